@@ -216,6 +216,12 @@ def step (line : String) : String :=
         && words.all (fun x => !x.isEmpty && x.length ≤ w) && t.all (fun c => c.toNat < 128)
       if simple then (Json.mkObj [("ok", Json.str (String.ofList (Wrap.fillSimple w t)))]).compress
       else "{\"unmodelled\":\"text outside the simple class of textwrap.fill\"}"
+    | .ok "effect" =>
+      -- the caller's description after an emitter ran on it (fix 79e7812: unchanged); "old": emit.class_ before the fix
+      let ir := match j.getObjVal? "ir" with | .ok i => irOfJson i | _ => {}
+      let old := (j.getObjValAs? Bool "old").toOption.getD false
+      let post := if old then (Shared.emitClassOld ir).2 else (Shared.emitPure ir).2
+      (Json.mkObj [("ok", irToJson post)]).compress
     | .ok "conform" =>
       let b (k : String) := (j.getObjValAs? Bool k).toOption.getD false
       let o : Conform.Obs := { fileExists := b "exists", found := b "found", cmpEq := b "cmp_eq",
